@@ -570,9 +570,12 @@ func c18Whole(c *hx.Ctx) {
 		for i, o := range divisors {
 			dbefore[i] = hx.RawOf(o)
 		}
-		per := 4000
+		per := 1200
 		if c.Tier == "thorough" {
-			per = 60000
+			per = 40000
+		}
+		if portableKernels { // (every word loop is instrumented by the race detector: ten times the cost per quotient)
+			per /= 15
 		}
 		const cg = 16
 		caseNo++
